@@ -2698,6 +2698,12 @@ impl Connection {
                             // Discard already-queued frames
                             self.spaces[SpaceId::Data].pending = Retransmits::default();
 
+                            // Datagrams queued so far are early data as well: the application
+                            // cannot tell which of them went out in 0-RTT packets and which are
+                            // still waiting, so none of them survives the rejection
+                            self.datagrams.outgoing.clear();
+                            self.datagrams.outgoing_total = 0;
+
                             // Discard 0-RTT packets
                             let sent_packets =
                                 mem::take(&mut self.spaces[SpaceId::Data].sent_packets);
